@@ -204,6 +204,16 @@ func TestC17ReadBack(t *testing.T) {
 				kinds[gen.KindName(a.Type, a.Nullable)] = true
 				sets++
 
+				if a.Type == jsonapi.AttrTypeBytes && !a.Nullable && rapid.IntRange(0, 4).Draw(t, "nilbytes") == 0 {
+					// The empty byte string as a nil slice: a well-typed value
+					// like any other (it reads back as empty).
+					model[a.Name] = []byte{}
+
+					do(fmt.Sprintf("Set(%q, []byte(nil))", a.Name), func(res jsonapi.Resource) { res.Set(a.Name, []byte(nil)) })
+
+					return
+				}
+
 				do(fmt.Sprintf("Set(%q, %s)", a.Name, gen.Show(v)), func(res jsonapi.Resource) { res.Set(a.Name, gen.Clone(v)) })
 			},
 			"SetSamePointerTwice": func(t *rapid.T) {
